@@ -53,6 +53,22 @@ CHECKS['C13'] = dict(
     technique='exhaustive operation-sequence enumeration (DFS with state '
               'copies) on generated inputs vs reference model')
 
+CHECKS['C09'] = dict(
+    category='exploration', design_ref='DESIGN.md §10 (C09)',
+    text='Hypothesis-generated bound recipes (all six classes, unit T/F, '
+         'periodic, 0..2 networks, d=1..8) with pre-write histories of '
+         'split/trim/sample/log_v; each is written to an HDF5 group, read '
+         'back with a generator cloned from the writer\'s, and compared in '
+         'lock-step: contains on probes, log_v bit-identical, several '
+         'sample(n) calls bit-identical across cache refills, equal final '
+         'generator state; then update+read vs write+read incl. logical '
+         'file content. About a thousand bounds per quick run.',
+    note='In-memory HDF5 (core driver); probes are sampled points (uniform, '
+         'own samples, near ellipsoid surfaces), not all points; recipes '
+         'whose rejection sampler has < 2 % acceptance are skipped (slow).',
+    technique='property-based testing (Hypothesis), round-trip differential '
+              'under cloned RNG')
+
 NOT_YET = {}
 
 
